@@ -152,10 +152,28 @@ impl<'a, F> Entries<'a, F> {
         entries
     }
 
-    fn stack_left_spine(&mut self, parent_path: &Path, mut current_id: u32) {
-        let minialloc = self.minialloc.read().unwrap();
+    fn stack_left_spine(&mut self, parent_path: &Path, current_id: u32) {
+        let lock = self.minialloc;
+        let minialloc = lock.read().unwrap();
+        Self::push_left_spine(
+            &mut self.stack,
+            &minialloc,
+            parent_path,
+            current_id,
+        );
+    }
+
+    /// Like `stack_left_spine`, for callers that already hold the lock (a
+    /// thread must not request a read lock it already holds: that deadlocks
+    /// as soon as a writer is waiting in between).
+    fn push_left_spine(
+        stack: &mut Vec<(PathBuf, u32, bool)>,
+        minialloc: &MiniAllocator<F>,
+        parent_path: &Path,
+        mut current_id: u32,
+    ) {
         while current_id != consts::NO_STREAM {
-            self.stack.push((parent_path.to_path_buf(), current_id, true));
+            stack.push((parent_path.to_path_buf(), current_id, true));
             current_id = minialloc.dir_entry(current_id).left_sibling;
         }
     }
@@ -166,17 +184,28 @@ impl<'a, F> Iterator for Entries<'a, F> {
 
     fn next(&mut self) -> Option<Entry> {
         if let Some((parent, stream_id, visit_siblings)) = self.stack.pop() {
-            let minialloc = self.minialloc.read().unwrap();
+            let lock = self.minialloc;
+            let minialloc = lock.read().unwrap();
             let dir_entry = minialloc.dir_entry(stream_id);
             let path = join_path(&parent, dir_entry);
             if visit_siblings {
-                self.stack_left_spine(&parent, dir_entry.right_sibling);
+                Self::push_left_spine(
+                    &mut self.stack,
+                    &minialloc,
+                    &parent,
+                    dir_entry.right_sibling,
+                );
             }
             if self.order == EntriesOrder::Preorder
                 && dir_entry.obj_type != ObjType::Stream
                 && dir_entry.child != consts::NO_STREAM
             {
-                self.stack_left_spine(&path, dir_entry.child);
+                Self::push_left_spine(
+                    &mut self.stack,
+                    &minialloc,
+                    &path,
+                    dir_entry.child,
+                );
             }
             Some(Entry::new(dir_entry, path))
         } else {
